@@ -38,7 +38,14 @@ def lean_str(s: str) -> str:
     return '"' + s.replace("\\", "\\\\").replace('"', '\\"').replace("\n", "\\n") + '"'
 
 
-def extract_sites(acelyzer_py: Path):
+def extract_sites(acelyzer_py: Path, profile_order=None):
+    """Registration sites of `register_processing_functions`, in source order, by a small symbolic walk over the
+    AST: `if`/`else` nest guards; a callback / context held in a local variable that is assigned under
+    different conditions yields one site per alternative (mutually exclusive sites of ONE call are listed in
+    the order in which the all-stages profile names them, `profile_order`); a call `self.<helper>(process, ...)`
+    of a method of the same class is inlined at the call; a local that is assigned exactly once is replaced by
+    its defining expression inside guard texts (hoisted conditions read like the inline ones); negations are
+    canonical (`not not x` is `x`).  Anything else that could register a stage raises ShapeNotRecognised."""
     src = acelyzer_py.read_text()
     tree = ast.parse(src)
     fns = [n for n in ast.walk(tree) if isinstance(n, ast.FunctionDef) and n.name == "register_processing_functions"]
@@ -49,11 +56,34 @@ def extract_sites(acelyzer_py: Path):
     if len(argnames) < 2:
         raise ShapeNotRecognised("register_processing_functions signature changed")
     proc = argnames[1]          # `process`
+    cls = next((c for c in ast.walk(tree) if isinstance(c, ast.ClassDef) and fn in c.body), None)
+    methods = {m.name: m for m in (cls.body if cls else []) if isinstance(m, ast.FunctionDef)}
     sites = []
+    if profile_order is None:
+        try:
+            import json as _json
+            ev = _json.loads((acelyzer_py.parent.parent / "profiles" / "everything.json").read_text())
+            profile_order = [next(iter(e)) for e in ev.get("stages", []) if isinstance(e, dict) and e]
+        except Exception:
+            profile_order = []
+    order = {}
+    for i, n in enumerate(profile_order):
+        order.setdefault(n, i)
 
     def is_reg_call(node) -> bool:
         return (isinstance(node, ast.Call) and isinstance(node.func, ast.Attribute)
                 and node.func.attr == "register_stage")
+
+    def helper_call(node):
+        """`self.<method of this class>(..., process, ...)`"""
+        if not (isinstance(node, ast.Call) and isinstance(node.func, ast.Attribute)
+                and isinstance(node.func.value, ast.Name) and node.func.value.id == "self"
+                and node.func.attr in methods):
+            return None
+        args = list(node.args) + [k.value for k in node.keywords]
+        if any(isinstance(a, ast.Name) and a.id == proc for a in args):
+            return methods[node.func.attr]
+        return None
 
     def check_no_hidden_registration(node, where):
         """inside an expression / non-registration statement: no register_stage, no passing of `process`"""
@@ -67,32 +97,142 @@ def extract_sites(acelyzer_py: Path):
             if isinstance(sub, (ast.Lambda, ast.FunctionDef)):
                 raise ShapeNotRecognised(f"line {sub.lineno}: nested function in register_processing_functions")
 
-    def walk(stmts, guards):
+    # locals assigned exactly once (over the method and the helpers it calls): usable inside guard texts
+    def assigned_names(f, seen):
+        out = []
+        for n in ast.walk(f):
+            if isinstance(n, ast.Assign) and len(n.targets) == 1 and isinstance(n.targets[0], ast.Name):
+                out.append((n.targets[0].id, n.value))
+            elif isinstance(n, (ast.Assign, ast.AugAssign, ast.AnnAssign, ast.For, ast.With, ast.NamedExpr)):
+                for t in ast.walk(n):
+                    if isinstance(t, ast.Name) and isinstance(t.ctx, ast.Store):
+                        out.append((t.id, None))
+            h = helper_call(n) if isinstance(n, ast.Call) else None
+            if h is not None and h.name not in seen:
+                seen.add(h.name)
+                out += assigned_names(h, seen)
+        return out
+    counts = {}
+    for n, v in assigned_names(fn, {fn.name}):
+        counts.setdefault(n, []).append(v)
+    once = {n: vs[0] for n, vs in counts.items() if len(vs) == 1 and vs[0] is not None}
+
+    class Subst(ast.NodeTransformer):
+        def __init__(self):
+            self.depth = 0
+
+        def visit_Name(self, node):
+            if isinstance(node.ctx, ast.Load) and node.id in once and self.depth < 8:
+                self.depth += 1
+                r = self.visit(ast.parse(ast.unparse(once[node.id]), mode="eval").body)
+                self.depth -= 1
+                return r
+            return node
+
+    def canon(test):
+        t = Subst().visit(ast.parse(ast.unparse(test), mode="eval").body)
+        while isinstance(t, ast.Call) and isinstance(t.func, ast.Name) and t.func.id == "bool" \
+                and len(t.args) == 1 and not t.keywords:
+            t = t.args[0]           # `bool(x)` as an if-test is `x`
+        return t
+
+    def neg(node):
+        if isinstance(node, ast.UnaryOp) and isinstance(node.op, ast.Not):
+            return node.operand
+        return ast.UnaryOp(op=ast.Not(), operand=node)
+
+    def gtext(node):
+        return ast.unparse(node)
+
+    def join(g_use, g_alt):
+        return g_use + [g for g in g_alt if g not in g_use]
+
+    def walk(stmts, guards, env, pname):
+        """env: local name -> [(value expression, guards under which it was assigned)]"""
         for s in stmts:
             if isinstance(s, ast.If):
                 check_no_hidden_registration(s.test, "if-test")
-                g = ast.unparse(s.test)
-                walk(s.body, guards + [g])
-                walk(s.orelse, guards + [f"not ({g})"])
+                c = canon(s.test)
+                g, ng = gtext(c), gtext(neg(c))
+                e1 = {k: list(v) for k, v in env.items()}
+                e2 = {k: list(v) for k, v in env.items()}
+                walk(s.body, guards + [g], e1, pname)
+                walk(s.orelse, guards + [ng], e2, pname)
+                for k in set(e1) | set(e2):
+                    a1, a2 = e1.get(k, []), e2.get(k, [])
+                    old = env.get(k, [])
+                    ch1, ch2 = a1 != old, a2 != old
+                    if ch1 and ch2:
+                        env[k] = a1 + a2
+                    elif ch1:
+                        env[k] = a1 + [(e, gg + [ng]) for e, gg in old]
+                    elif ch2:
+                        env[k] = [(e, gg + [g]) for e, gg in old] + a2
+            elif isinstance(s, ast.Assign) and len(s.targets) == 1 and \
+                    (isinstance(s.targets[0], ast.Name) or
+                     (isinstance(s.targets[0], ast.Tuple) and isinstance(s.value, ast.Tuple)
+                      and len(s.targets[0].elts) == len(s.value.elts)
+                      and all(isinstance(t, ast.Name) for t in s.targets[0].elts))):
+                check_no_hidden_registration(s.value, "Assign")
+                pairs = [(s.targets[0], s.value)] if isinstance(s.targets[0], ast.Name) else \
+                    list(zip(s.targets[0].elts, s.value.elts))
+                for t, v in pairs:
+                    env[t.id] = [(v, list(guards))]
             elif isinstance(s, ast.Expr) and is_reg_call(s.value):
                 call = s.value
-                if not (isinstance(call.func.value, ast.Name) and call.func.value.id == proc):
-                    raise ShapeNotRecognised(f"line {s.lineno}: register_stage on something other than `{proc}`")
+                if not (isinstance(call.func.value, ast.Name) and call.func.value.id == pname):
+                    raise ShapeNotRecognised(f"line {s.lineno}: register_stage on something other than `{pname}`")
                 kw = {k.arg: k.value for k in call.keywords}
                 cb = kw.get("callback", call.args[0] if call.args else None)
-                if not (isinstance(cb, ast.Attribute) and isinstance(cb.value, ast.Name)):
-                    raise ShapeNotRecognised(f"line {s.lineno}: computed callback {ast.unparse(cb) if cb else None}")
                 ctx = kw.get("context", call.args[1] if len(call.args) > 1 else None)
                 for v in list(call.args) + list(kw.values()):
                     check_no_hidden_registration(v, "argument of register_stage") if not isinstance(v, ast.Name) else None
-                sites.append({
-                    "name": cb.attr,
-                    "cond": len(guards) > 0,
-                    "ctx": ast.unparse(ctx) if ctx is not None else "None",
-                    "guard": " and ".join(f"({g})" for g in guards),
-                    "line": s.lineno,
-                    "kwargs": sorted(k for k in kw if k not in ("callback", "context")),
-                })
+                if isinstance(cb, ast.Attribute) and isinstance(cb.value, ast.Name):
+                    alts = [(cb, [])]
+                elif isinstance(cb, ast.Name) and cb.id in env and all(
+                        isinstance(e, ast.Attribute) and isinstance(e.value, ast.Name) for e, _ in env[cb.id]):
+                    alts = list(env[cb.id])
+                else:
+                    raise ShapeNotRecognised(f"line {s.lineno}: computed callback {ast.unparse(cb) if cb else None}")
+                if len(alts) > 1:
+                    alts.sort(key=lambda a: order.get(a[0].attr, len(order)))
+                for e, ag in alts:
+                    gs = join(guards, ag)
+                    ctext = ast.unparse(ctx) if ctx is not None else "None"
+                    if isinstance(ctx, ast.Name) and len(env.get(ctx.id, [])) > 1:
+                        # a context variable assigned under different conditions: the object built under this one
+                        same = [ce for ce, cg in env[ctx.id] if join(guards, cg) == gs]
+                        if len(same) == 1:
+                            ctext = ast.unparse(same[0])
+                    sites.append({
+                        "name": e.attr,
+                        "cond": len(gs) > 0,
+                        "ctx": ctext,
+                        "guard": " and ".join(f"({g})" for g in gs),
+                        "line": s.lineno,
+                        "kwargs": sorted(k for k in kw if k not in ("callback", "context")),
+                    })
+            elif isinstance(s, ast.Expr) and helper_call(s.value) is not None:
+                h = helper_call(s.value)
+                call = s.value
+                params = [a.arg for a in h.args.args][1:]       # without self
+                actual = list(call.args) + [None] * (len(params) - len(call.args))
+                for k in call.keywords:
+                    if k.arg in params:
+                        actual[params.index(k.arg)] = k.value
+                hp = None
+                for pn, av in zip(params, actual):
+                    if isinstance(av, ast.Name) and av.id == pname:
+                        hp = pn
+                    elif av is not None and not (isinstance(av, ast.Name) and av.id == pn):
+                        # a parameter under another name / bound to an expression: readable through `once`
+                        if pn not in once:
+                            once[pn] = av
+                    if av is not None and not isinstance(av, ast.Name):
+                        check_no_hidden_registration(av, "argument of a helper call")
+                if hp is None or h is fn:
+                    raise ShapeNotRecognised(f"line {s.lineno}: helper call {ast.unparse(call.func)} not understood")
+                walk(h.body, guards, {k: list(v) for k, v in env.items()}, hp)
             elif isinstance(s, (ast.For, ast.While, ast.With, ast.Try, ast.FunctionDef, ast.ClassDef, ast.Match,
                                 ast.AsyncFor, ast.AsyncWith, ast.Return)):
                 for sub in ast.walk(s):
@@ -101,7 +241,7 @@ def extract_sites(acelyzer_py: Path):
                 check_no_hidden_registration(s, type(s).__name__)
             else:
                 check_no_hidden_registration(s, type(s).__name__)
-    walk(fn.body, [])
+    walk(fn.body, [], {}, proc)
     if not sites:
         raise ShapeNotRecognised("no register_stage call sites found")
     return sites
